@@ -44,6 +44,17 @@ CHECKS = {
             'and no change outside the declared footprint of the operation.',
             'ProviderMdib is driven directly (no transport, no role providers); values come from the C05 generators.',
             'DESIGN.md section 2 C02'),
+    'C03': ('hypothesis generated histories with injected faults (exception at the k-th point of a transaction body, '
+            'rejected API calls, self-failing commits) and generated nested in-place writes on handed-out objects; '
+            'before/after full-snapshot oracle',
+            'Every history step is judged against the complete canonical snapshot of the MDIB (content, versions, lookup '
+            'audit, table sizes) and against the transaction/rt_updates observables: aborts, rejections and failing commits '
+            'must leave everything unchanged and fire nothing; objects published by earlier commits must keep their value '
+            'for the rest of the history; nested writes on transaction copies, entity-getter results and published copies '
+            'must not reach the MDIB without a commit.',
+            'ProviderMdib driven directly; crash points are the library API calls made by the body (before the first, '
+            'after each, after the last); lxml extension elements are shared by design and not written to.',
+            'DESIGN.md section 2 C03'),
 }
 
 NOT_YET = {}
